@@ -38,6 +38,8 @@ MUTANTS = [
     # C03: the two defects repaired by "fix:" commits, re-introduced (the check must fail on the pre-fix tree)
     ('F1', 'C03', 'scanner.py', "                    if code > 0x10FFFF:\n", "                    if False:\n"),
     ('F2', 'C03', 'scanner.py', "        try:\n            value = int(self.prefix(length))\n        except ValueError:\n", "        try:\n            value = int(self.prefix(length))\n        except ZeroDivisionError:\n"),
+    # C18: the defect repaired by the third fix: commit (pending two-step generators keep the loader alive after a ConstructorError)
+    ('F3', 'C18', 'constructor.py', "            # stream) alive until the next run of the cyclic garbage collector.\n            self.state_generators = []\n", "            # stream) alive until the next run of the cyclic garbage collector.\n"),
 ]
 
 
